@@ -20,6 +20,16 @@ void vx_read_vector3(const SLHAea::Block* b, double* m)
    gm2calc::GM2_slha_io::read_block(*b, tmp);
    mm = tmp;
 }
+int vx_is_block_def(const SLHAea::Line* l) { return l->is_block_def(); }
+int vx_is_data_line(const SLHAea::Line* l) { return l->is_data_line(); }
+int vx_is_comment_line(const SLHAea::Line* l) { return l->is_comment_line(); }
+// native-only: classification of the first line of a text by the real tokenizer: 1 block def, 2 data, 4 comment
+int vx_native_line_class(const char* text)
+{
+   SLHAea::Line l;
+   l.str(text);
+   return (l.is_block_def() ? 1 : 0) | (l.is_data_line() ? 2 : 0) | (l.is_comment_line() ? 4 : 0);
+}
 int vx_is_at_scale(const SLHAea::Block* b, double scale)
 {
    return gm2calc::GM2_slha_io::is_at_scale(*b, scale);
